@@ -44,10 +44,11 @@ def run(ck: Check, prog: Program) -> None:
     # "a batch containing an element that is not a valid request object executes nothing": element validity is decided by
     # Request.from_json before any handler runs (REJECT-BEFORE-RUN) — its member guards are part of this property
     from . import c06
-    rf = prog.func('pjrpc.common.v20.Request.from_json')
+    mprog = c06.model_program(prog)
+    rf = mprog.func('pjrpc.common.v20.Request.from_json')
     ck.functions.add(rf.qualname)
-    c06._field_guards(ck, prog, rf)
-    c06._container_guard(ck, prog, rf)
+    c06._field_guards(ck, mprog, rf)
+    c06._container_guard(ck, mprog, rf)
 
 
 MUTANTS = [
